@@ -4,12 +4,12 @@
 cd "$(dirname "$0")/../coq"
 J=${1:-4}
 mkdir -p ../.work/coqchk
-ls props/*.vo | sed 's|props/\(.*\)\.vo|\1|' | xargs -P "$J" -I{} bash -c 'timeout 7200 coqchk -o -silent -Q . SK SK.props.{} > ../.work/coqchk/{}.log 2>&1; echo "{} rc=$?"' | sort
+ls props/*.vo | sed 's|props/\(.*\)\.vo|\1|' | xargs -P "$J" -I{} bash -c 'timeout 7200 coqchk -o -silent -Q . SK SK.props.{} > ../.work/coqchk/{}.log 2>&1; rc=$?; echo $rc > ../.work/coqchk/{}.rc; echo "{} rc=$rc"' | sort
 {
   echo "coqchk -o -silent -Q . SK SK.props.Cxx   (Coq 8.16.1), $(date -u +%FT%TZ)"
   for f in ../.work/coqchk/C*.log; do
     p=$(basename "$f" .log)
-    echo "== $p: $(grep -c 'Modules were successfully checked' "$f") ok-line(s); axioms other than primitive int/float/array declarations:"
+    echo "== $p: coqchk exit status $(cat ../.work/coqchk/$p.rc 2>/dev/null) (0 = every module of the property file and of everything it depends on was re-checked), context summary printed: $(grep -c 'CONTEXT SUMMARY' "$f"); axioms other than primitive int/float/array declarations:"
     awk '/\* Axioms:/{a=1;next} /^\* /{a=0} a&&NF' "$f" | grep -v 'Coq.Numbers.Cyclic.Int63\|Coq.Floats\|PrimInt63\|PrimFloat\|PArray\|Coq.Array' | sed 's/^/     /' | sort -u
   done
 } > ../notes/coqchk.txt
